@@ -43,6 +43,7 @@ def bounds(tier, seed):
         "spacing_alphabet": SPACINGS,
         "value_alphabet": VALUES,
         "n=6": "thorough only, value alphabet restricted to {0,1,-1,2}",
+        "x_units": "n in {3,4}: all spacing sequences x all value sequences over {0,1,-1,2} with x scaled by 1e-9 / 1e6 / 1e-3 (and offset), and nearly uniform grids (relative drift 8e-6, 5e-7, 1e-9)",
         "structured": "n in {50,500}: sine, sawtooth, steps, seeded walk, on uniform and non-uniform grids",
         "queries": "knots, 1/4 1/2 3/4 points of every interval, x0-0.5, x0-3, xn+0.5, xn+3, 16 sub-points per interval for shape",
     }
@@ -54,14 +55,21 @@ def cases(tier, seed):
         for sp in itertools.product(SPACINGS, repeat=n - 1):
             for v0 in vals:
                 yield {"family": "product", "n": n, "spacing": list(sp), "v0": v0, "values": vals}
+    # units of the x axis: the interpolant must not depend on them (times in seconds with ns spacing, large offsets); nearly uniform grids
+    for n in (3, 4):
+        for sp in itertools.product(SPACINGS, repeat=n - 1):
+            for unit, off in ((1e-9, 0.0), (1e-9, 5e-9), (1e6, 0.0), (1e-3, 1.0)):
+                yield {"family": "scaled", "n": n, "spacing": list(sp), "unit": unit, "offset": off, "values": VALUES[:4]}
+        for drift in (8e-6, 5e-7, 1e-9):
+            yield {"family": "scaled", "n": n, "spacing": [1.0 + k * drift for k in range(n - 1)], "unit": 1.0, "offset": 0.0, "values": VALUES[:4]}
     for n in (50, 500):
         for shape in ("sine", "saw", "steps", "walk", "flatends"):
             for grid in ("uniform", "nonuniform"):
                 yield {"family": "structured", "n": n, "shape": shape, "grid": grid, "seed": seed}
 
 
-def _check_one(x, y):
-    """returns (error message or None)."""
+def _check_one(x, y, unit=1.0):
+    """returns (error message or None).  unit = length scale of the x axis (the query points outside the range scale with it)."""
     from emu_base.math.pchip_torch import PCHIP1D
 
     xt = torch.tensor(x, dtype=torch.float64)
@@ -74,14 +82,15 @@ def _check_one(x, y):
     inner = []
     for i in range(n - 1):
         inner += [x[i] + f * h[i] for f in (0.25, 0.5, 0.75)]
-    outside = [x[0] - 0.5, x[0] - 3.0, x[-1] + 0.5, x[-1] + 3.0]
+    outside = [x[0] - 0.5 * unit, x[0] - 3.0 * unit, x[-1] + 0.5 * unit, x[-1] + 3.0 * unit]
     q = np.array(list(x) + inner + outside)
     got = p(torch.tensor(q, dtype=torch.float64)).numpy()
     if not np.all(np.isfinite(got)):
         return f"non-finite interpolant values {got}"
     # 1. exact at knots
     kn = got[:n]
-    if np.abs(kn - y).max() > 4e-16 * scale:
+    # exactly representable grids reproduce the data bit for bit; on other grids the last knot is reached through the cubic of the last interval (a few ulps)
+    if np.abs(kn - y).max() > (4e-16 if unit == 1.0 and np.all(h == np.round(h * 2) / 2) else 1e-14) * scale:
         return f"not exact at knots: {kn.tolist()} vs {list(y)}"
     # 2. equals standard PCHIP (SciPy), inside and extrapolated
     if n == 2:
@@ -100,7 +109,7 @@ def _check_one(x, y):
         (gr,) = torch.autograd.grad(p(xr).sum(), xr)
         (gl,) = torch.autograd.grad(p(xl).sum(), xl)
         vl = p(xl).detach().numpy()
-        if np.abs(vl - y[1:-1]).max() > 1e-12 * scale / min(1.0, hmin):
+        if np.abs(vl - y[1:-1]).max() > 1e-12 * scale / min(1.0, hmin / unit):
             return f"discontinuous at an interior knot: left limit {vl.tolist()} vs {list(y[1:-1])}"
         dd = np.abs(gr.numpy() - gl.numpy()).max()
         if dd > 1e-9 * scale / hmin:
@@ -148,21 +157,23 @@ def run_case(case):
         if err:
             return result(False, sig=f"structured|{case['shape']}|{err.split(':')[0][:40]}", msg=f"{err} ({case})", outcome="viol")
         return result(True, outcome=[case["shape"], case["n"], case["grid"]], transitions=1)
-    n, sp, v0, vals = case["n"], case["spacing"], case["v0"], case["values"]
-    x = np.concatenate([[0.0], np.cumsum(sp)])
+    n, sp, vals = case["n"], case["spacing"], case["values"]
+    unit = case.get("unit", 1.0)
+    x = case.get("offset", 0.0) + unit * np.concatenate([[0.0], np.cumsum(sp)])
     count = 0
     nontriv = 0
-    for rest in itertools.product(vals, repeat=n - 1):
-        y = np.array((v0,) + rest)
+    firsts = [case["v0"]] if "v0" in case else vals
+    for first, rest in itertools.product(firsts, itertools.product(vals, repeat=n - 1)):
+        y = np.array((first,) + rest)
         count += 1
         nontriv += int(len(set(y.tolist())) > 1)
-        err = _check_one(x, y)
+        err = _check_one(x, y, unit)
         if err:
             kind = err.split(":")[0][:40]
             flat_first = n > 2 and (y[0] == y[1] != y[2] or y[-1] == y[-2] != y[-3])
             return result(
                 False,
-                sig=f"{kind}|{'flat-end-interval' if flat_first else 'other'}",
+                sig=f"{kind}|{'flat-end-interval' if flat_first else 'other'}" + ("|x-units" if case["family"] == "scaled" else ""),
                 msg=f"x={x.tolist()} y={y.tolist()}: {err}",
                 outcome="viol",
                 states=count,
